@@ -563,3 +563,159 @@ def check_c13(args):
         "known_findings_seen": sorted(v.seen_known)},
         ASSUME + ["integer keys only (the range scan supports no other key type)"], time.time() - t0, len(v.violations))
     return rc
+
+
+# =========================================================================== C05 statement sequences
+def seq_case(rnd):
+    """A statement sequence over t1 (maybe primary key / NOT NULL), t2, t3 with DML and queries."""
+    pk = rnd.random() < 0.5
+    nn = rnd.random() < 0.4
+    ddl = [f"create table t1(a int{' primary key' if pk else ''}, b int{' not null' if nn else ''}, c varchar)",
+           "create table t2(a int, b int, c varchar)", "create table t3(a int, b int)"]
+    steps = [{"sql": s, "kind": "ddl"} for s in ddl]
+    # (no subqueries here: with the real, small row counts of the disk engine their plans panic -- Q8)
+    g = G.Gen(rnd, feat=dict(ENVELOPE, subq=()))
+    used_keys = set()
+    for _ in range(rnd.choice([5, 7, 9])):
+        k = rnd.random()
+        if k < 0.4:
+            t = rnd.choice(["t1", "t1", "t2", "t3"])
+            rows = []
+            for _ in range(rnd.choice([1, 2, 3, 5])):
+                if t == "t1" and pk:
+                    a = rnd.choice([x for x in range(0, 30) if x not in used_keys] + [None] * (1 if rnd.random() < 0.1 else 0))
+                    if a is not None:
+                        used_keys.add(a)
+                else:
+                    a = rnd.choice(G.INTS)
+                b = rnd.choice(G.INTS if not (t == "t1" and nn) or rnd.random() < 0.1 else [0, 1, 2, 3])
+                row = [a, b] if t == "t3" else [a, b, rnd.choice(G.STRS)]
+                rows.append(row)
+            steps.append({"sql": f"insert into {t} values " + ", ".join(
+                "(" + ", ".join(G.lit(v) for v in r) + ")" for r in rows), "kind": "dml"})
+        elif k < 0.5:
+            steps.append({"sql": f"insert into t2 select a, b, c from t1 where b {rnd.choice(['<', '>=', '='])} {rnd.choice([0, 1, 2])}",
+                          "kind": "dml"})
+        elif k < 0.65:
+            t = rnd.choice(["t1", "t1", "t2", "t3"])
+            col = rnd.choice(["a", "a", "b"])
+            op = rnd.choice(["=", "<", ">=", "<>"])
+            steps.append({"sql": f"delete from {t} where {col} {op} {rnd.choice([0, 1, 2, 3, 7])}", "kind": "dml"})
+        elif k < 0.72:
+            steps.append({"op": "compact", "kind": "env"})
+        else:
+            q = g.query()
+            steps.append({"sql": G.sql_query(q), "kind": "query", "q": q})
+    return {"pk": pk, "nn": nn, "steps": steps}
+
+
+C05_GRID = [{"block": 16384, "rowset": 268435456, "checksum": True, "first_key": True},
+            {"block": 24, "rowset": 268435456, "checksum": False, "first_key": True},
+            {"block": 40, "rowset": 96, "checksum": True, "first_key": True},
+            {"block": 64, "rowset": 268435456, "checksum": True, "first_key": True}]
+
+
+def check_c05(args):
+    t0 = time.time()
+    seed, tier = seed_tier(args)
+    build()
+    v = Verdict("C05")
+    big = tier == "thorough"
+    rnd = random.Random(seed * 17 + 9)
+    seqs = [seq_case(rnd) for _ in range(500 if big else 60)]
+    runs = []
+    for i, sc in enumerate(seqs):
+        for j, eng in enumerate(["mem"] + ["disk"] * (len(C05_GRID) if big else 2)):
+            steps = []
+            for s in sc["steps"]:
+                if s["kind"] == "query":
+                    # table contents right before the query (the memory run's answer is the db TLC uses)
+                    for t in ("t1", "t2", "t3"):
+                        steps.append({"sql": f"select * from {t}", "probe": t})
+                steps.append({k: v2 for k, v2 in s.items() if k in ("sql", "op")} | {"kind": s["kind"]})
+            opts = C05_GRID[(j - 1 + i) % len(C05_GRID)] if eng == "disk" else {}
+            runs.append({"id": f"{i}.{j}", "engine": eng, "opts": opts, "steps": steps})
+    outs = run_sharded("sql", runs, tag="c05", timeout=3300, case_timeout=60)
+    by = {}
+    for run, out in zip(runs, outs):
+        i, j = (int(x) for x in run["id"].split("."))
+        if out.get("hang") or "fatal" in out:
+            raise ToolError(f"sequence {run['id']}: {out}")
+        by.setdefault(i, {})[j] = (run, out)
+    # ---- step-by-step comparison memory vs every disk configuration
+    qcases, nsteps, nontriv = [], 0, set()
+    for i, sc in enumerate(seqs):
+        mrun, mout = by[i][0]
+        for j in sorted(by[i]):
+            if j == 0:
+                continue
+            drun, dout = by[i][j]
+            diverged = False
+            for k, (st, rm, rd) in enumerate(zip(mrun["steps"], mout["res"], dout["res"])):
+                nsteps += 1
+                info = {"sequence": [s.get("sql") or s.get("op") for s in mrun["steps"] if "probe" not in s][: k + 1],
+                        "disk_options": drun["opts"], "step": st.get("sql") or st.get("op"), "memory": rm, "disk": rd}
+                if rm["ok"] != rd["ok"]:
+                    v.violation(info, f"`{info['step']}`: memory engine {'ok' if rm['ok'] else 'fails: ' + str(rm.get('err'))[:80]}, "
+                                      f"disk engine ({drun['opts']}) {'ok' if rd['ok'] else 'fails: ' + str(rd.get('err'))[:80]}")
+                    diverged = True
+                    break
+                if not rm["ok"] or "sql" not in st:
+                    continue
+                q = next((s.get("q") for s in sc["steps"] if s.get("sql") == st["sql"] and s["kind"] == "query"), None)
+                a, b = rm["rows"], rd["rows"]
+                same = sorted(json.dumps(r) for r in a) == sorted(json.dumps(r) for r in b)
+                if q is not None and (q["lim"] >= 0 or q["off"] > 0) and not q["ord"]:
+                    same = len(a) == len(b)
+                elif q is not None and (q["lim"] >= 0 or q["off"] > 0):
+                    keys = [i2 for i2, _ in q["ord"]]
+                    same = [[r[x] for x in keys] for r in a] == [[r[x] for x in keys] for r in b]
+                elif q is not None and q["ord"] and same:
+                    keys = [i2 for i2, _ in q["ord"]]
+                    same = [[r[x] for x in keys] for r in a] == [[r[x] for x in keys] for r in b]
+                if not same:
+                    v.violation(info, f"`{info['step']}`: memory engine returns {a[:6]}, disk engine ({drun['opts']}) {b[:6]}")
+                    diverged = True
+                    break
+                if a:
+                    nontriv.add(json.dumps(info["sequence"]))
+            if diverged:
+                continue
+        # ---- queries are also validated against SqlSem on the contents the memory run reports
+        db, obs_at = {}, []
+        for k, (st, rm) in enumerate(zip(mrun["steps"], mout["res"])):
+            if "probe" in st and rm["ok"]:
+                db[st["probe"]] = [[dec(c) for c in row] for row in rm["rows"]]
+            q = next((s.get("q") for s in sc["steps"] if "sql" in st and s.get("sql") == st["sql"] and s["kind"] == "query"), None) \
+                if st.get("kind") == "query" else None
+            if q is not None and len(db) == 3:
+                obs = {}
+                for j in sorted(by[i]):
+                    r = by[i][j][1]["res"][k]
+                    if r["ok"]:
+                        obs["mem" if j == 0 else f"disk{j}"] = {"rows": r["rows"]}
+                if obs:
+                    qcases.append({"db": {t: list(rows) for t, rows in db.items()}, "q": q, "sql": st["sql"], "pk": sc["pk"], "obs": obs})
+    if qcases:
+        validate(qcases, "c05")
+        oracle_selfcheck(qcases)
+        for c in qcases:
+            for lab, ok in c["match"].items():
+                if not ok:
+                    v.violation({"sql": c["sql"], "db": c["db"], "config": lab, "observed": c["obs"][lab]["rows"], "expected": c["expected"]},
+                                f"[{lab}] {c['sql']} returned {c['obs'][lab]['rows'][:6]}, SQL semantics on the table contents gives {c['expected'][:6]}")
+    import sqlknown
+    sqlknown.run_repros(v, "C05")
+    rc = v.finish()
+    write_evidence("C05", tier, seed, "exploration", {
+        "evaluations": nsteps, "distinct_nontrivial": len(nontriv),
+        "rule": "statement sequences (CREATE with / without PRIMARY KEY and NOT NULL, multi-row INSERT with NULLs and "
+                "constraint violations, INSERT..SELECT, DELETE WHERE p, forced compaction, queries of the C02 grammar) "
+                "run on the memory engine and on the disk engine over an option grid (block 24..16384, row-set size "
+                "forcing several row-sets per INSERT, checksum on/off); outcomes compared statement by statement "
+                "(ok/err, DML counts, result bags, sequences on ORDER BY keys) and every query result also validated "
+                "by TLC against SqlSem.tla; non-trivial = sequences with a non-empty compared result",
+        "samples": [[s.get("sql") or s.get("op") for s in seqs[0]["steps"]]],
+        "queries_validated_by_tlc": len(qcases), "known_findings_seen": sorted(v.seen_known)},
+        ASSUME, time.time() - t0, len(v.violations))
+    return rc
